@@ -35,6 +35,10 @@ func (w *World) Exec(idx int, op Op) {
 	w.opIOSnap = nil
 	Progress.Add(1)
 	w.exec1(op)
+	if w.Env.TornShifted > 0 {
+		w.Stats.Probes["torn-write-moved-off-identical-stale-bytes"] += w.Env.TornShifted
+		w.Env.TornShifted = 0
+	}
 	if w.Env.BudgetHit && w.Viol == nil {
 		w.fail("io-budget", op.Kind, "operation exceeded its I/O budget of %d StoreFile calls (non-termination)", w.Env.Budget)
 	}
@@ -377,6 +381,14 @@ func (w *World) finishOpen(h *StoreH, kind string) {
 	logFrom := 0
 	if h.Disk >= 0 {
 		logFrom = len(w.Disks[h.Disk].Log)
+		// an adversarial value written without a root record
+		// (Collection.Write, failed flush) that became a complete
+		// self-consistent root record by coincidence of offsets: no verdict
+		if w.forgedRoot(h.Disk) {
+			h.Closed = true
+			w.setStore(h)
+			return
+		}
 	}
 	err := w.openStore(h, kind)
 	if w.Viol != nil {
